@@ -48,10 +48,14 @@ LEVEL = "exploration"
 ENGINE = "enum"
 RULE = ("every operator/shape TranslatorC accepts and mc.refsem gives a meaning to (n-ary + * & | ^ with 2 and 3 operands, "
         "unary and binary -, << >> a>>, <<< >>>, udiv umod sdiv smod, cntleadzeros cnttrailzeros, parity, zeroExt signExt, "
-        "== <u <s <=u <=s, ExprSlice, ExprCompose of 2-3 parts, ExprCond, bcdadd bcdadd_cf, ExprInt literals) over the "
+        "== <u <s <=u <=s, ExprSlice, ExprCompose of 2-3 parts, ExprCond, bcdadd bcdadd_cf, ExprInt literals, '!' read as "
+        "bitwise complement, ExprLoc with an offset in the LocationDB) over the "
         "identifiers a, b, c and constants of the boundary lattice, at native widths 8/16/32/64, a spread of widths 1..63 "
         "for the width-agnostic shapes (rotations also at the RCL widths 9/17/33) and big-number widths 65..256, plus a "
-        "depth-2 family context(inner) where the context is sensitive to bits above the inner expression's width; each "
+        "depth-2 family context(inner) where the context is sensitive to bits above the inner expression's width, and "
+        "all-constant operand shapes (both / all three operands ExprInt, unary operators, extensions, slices, compositions and "
+        "conditions of ExprInt, 32-bit-boundary constants as left operand) at widths around the 32-bit C literal boundary and at "
+        "big-number widths whose top 32-bit word is partial; each "
         "compiled function is evaluated on every operand tuple (all values for widths <= 4, B(w) x B(w) above, a reduced "
         "boundary set for 3-operand shapes).  distinct = (expression, operand tuple); a case is non-trivial when its "
         "reference is defined and the tuple is not all-zero")
@@ -63,12 +67,14 @@ LEVEL_TEXT = ("Bounded-exhaustive: the complete lattice of accepted operators x 
               "plus the limb-aligned and unaligned big-number widths exercise every instantiation.")
 LEVEL_NOTE = ("Trusted: mc/refsem.py, gcc, the C driver emitted by this module (DRIVER_HEAD/DRIVER_MAIN).  Not covered: memory operands "
               "(MEM_LOOKUP_* need a live jitcpu; C20/C24/C49), operators without a reference meaning (fpu_*, segm, x86_cpuid, "
-              "access_*/load_*, '!'), depth > 2, values outside the boundary lattice for widths > 4, the per-C-type operators "
+              "access_*/load_*), depth > 2, values outside the boundary lattice for widths > 4, the per-C-type operators "
               "(shifts, div/mod, rotations outside 9/17/33) at non power-of-two widths (recorded under "
               "coverage.odd_width_per_type_probe for information: the translator emits uintN_t for such N).")
 TECHNIQUE = "complete enumeration of operator x width x operand-shape lattice, compiled C vs reference evaluator on boundary tuples"
 ASSUMPTIONS = ["mc/refsem.py states miasm's constant evaluation (tied to it by C03); division and modulo by zero are undefined "
                "(skipped in C, counted)",
+               "'!' has no entry in mc.refsem: it is given the meaning TranslatorC implements (bitwise complement on the operand "
+               "width) and evaluated by the reference as x ^ mask; an ExprLoc evaluates to its offset in the LocationDB",
                "identifiers hold values below 2^width (the jitter masks every assignment) in a C variable of the type the "
                "jitter declares: uintN_t, N = next power of two >= max(width, 8); bn_t above 64 bits",
                "the value of a translated expression is observed the way CGen.gen_c_assignments consumes it: masked to the "
@@ -85,7 +91,7 @@ RCL = (9, 17, 33)
 NESTED_QUICK = (8, 32, 64, 128)
 NESTED_THOROUGH = (3, 8, 13, 16, 32, 33, 64, 65, 128, 256)
 # widths of the all-constant shapes: around the 32-bit C literal boundary, plus big numbers whose top 32-bit word is partial
-CONST_QUICK = (31, 32, 33, 48, 63, 64, 65, 72, 80, 127, 129)
+CONST_QUICK = (31, 32, 33, 48, 64, 65, 72, 80, 127)
 CONST_THOROUGH = (17, 24, 31, 32, 33, 40, 48, 56, 63, 64, 65, 72, 80, 96, 112, 120, 127, 129, 176)
 PROBE_ODD = (13,)
 NSHARDS_QUICK = 16
